@@ -1293,7 +1293,11 @@ class Attribute(DomainMapping):
     def _is_iterable_(self):
         if not self._wrapped_field_:
             return False
-        return self._wrapped_field_.is_iterable
+        # a collection of builtins (List[str]) is not a relationship but it is iterable as well
+        return (
+            self._wrapped_field_.is_iterable
+            or self._wrapped_field_.is_collection_of_builtins
+        )
 
     @cached_property
     def _wrapped_type_(self):
